@@ -16,7 +16,8 @@ RULE = (
     "initialize and after every round est/eft/lst/lft/critical_path_length are compared (1e-9) with a reference "
     "CPM (topological longest path forward, min over successors backward), slack >= 0 and some head-to-tail path "
     "has zero slack. (simulation) FS-only models under resource contention: the same comparison at the 'updated' "
-    "phase of every step (the live remaining amounts of the snapshot feed the reference). Non-trivial = the "
+    "phase of every step (the live remaining amounts of the snapshot feed the reference), half of the time after a "
+    "backward_simulate (with/without due-time helper tasks) or a warm start on the same objects. Non-trivial = the "
     "critical path length (minus t) changed between two consecutive updates of one workflow; distinct by case hash."
 )
 ASSUMPTIONS = ["finish-to-start networks only, as the property states", "tolerance 1e-9 on all PERT values"]
@@ -105,12 +106,12 @@ def _standalone(draw, max_n):
     return {"kind": "standalone", "work": work, "edges": [list(e) for e in edges], "order": order, "hist": [[dt, fr] for dt, fr in hist]}
 
 
-CFG_SIM = gen.Cfg(kinds=[0], facilities=False, max_workers=3, min_tasks=2, max_tasks=8, max_time=[40], p_auto=10)
+CFG_SIM = gen.Cfg(warm=4, due=True, kinds=[0], facilities=False, max_workers=3, min_tasks=2, max_tasks=8, max_time=[40], p_auto=10)
 
 
 @st.composite
 def _sim(draw, cfg):
-    return {"kind": "sim", "spec": draw(gen.model_spec(cfg))}
+    return {"kind": "sim", "spec": draw(gen.model_spec(cfg)), "pre_backward": draw(st.sampled_from([None, None, False, True]))}
 
 
 def strategy(tier):
@@ -161,7 +162,14 @@ def check(case):
         res.nontrivial = changed and n > 1
     else:
         spec = case["spec"]
-        sim = simcheck.Sim(spec, phases=("updated",))
+        pre = None
+        if case.get("pre_backward") is not None:
+            # the same workflow has been through a backward simulation before (with or without due-time helpers)
+            def pre(h, due=bool(case["pre_backward"])):
+                S.backward_simulate(h.project, spec["opts"], considering_due_time_of_tail_tasks=due)
+
+            res.cls("after_backward_due" if case["pre_backward"] else "after_backward")
+        sim = simcheck.Sim(spec, phases=("updated",), pre=pre)
         n = sim.n
         edges = sorted(set((a, b) for a, b, k in spec["deps"]))
         last = None
